@@ -1,6 +1,7 @@
 package sym
 
 import (
+	"sync/atomic"
 	"bufio"
 	"fmt"
 	"io"
@@ -47,6 +48,7 @@ type Solver struct {
 	hardIDs     map[string]bool
 	HardBin     string // binary for one-shot queries (default z3-new)
 	FastMs    int
+	Restarts  int // incremental process replaced after it ignored its timeout
 }
 
 // oneShot is a second solver process used non-incrementally: z3's incremental core
@@ -97,6 +99,49 @@ func NewSolver(kind string, tb *Table, timeoutMs int) (*Solver, error) {
 		s.send(fmt.Sprintf("(set-option :timeout %d)", s.FastMs))
 	}
 	return s, nil
+}
+
+// restart replaces a wedged or dead incremental solver process by a fresh one and
+// re-poses the assertion stack from the mirror kept in frames.
+func (s *Solver) restart() error {
+	if s.cmd != nil {
+		s.in.Close()
+		s.cmd.Process.Kill()
+		s.cmd.Wait()
+	}
+	bin := "z3"
+	if s.Kind == "z3-new" {
+		bin = "z3-new"
+	}
+	cmd := exec.Command(bin, "-in")
+	in, err := cmd.StdinPipe()
+	if err != nil {
+		return err
+	}
+	outp, err := cmd.StdoutPipe()
+	if err != nil {
+		return err
+	}
+	cmd.Stderr = cmd.Stdout
+	if err := cmd.Start(); err != nil {
+		return err
+	}
+	s.cmd, s.in, s.out = cmd, in, bufio.NewReaderSize(outp, 1<<16)
+	s.defined, s.nVars, s.nUFs, s.floatDecl = nil, 0, 0, false
+	s.Restarts++
+	s.send("(set-option :global-declarations true)")
+	s.send(fmt.Sprintf("(set-option :timeout %d)", s.FastMs))
+	for i, fr := range s.frames {
+		if i > 0 {
+			s.send("(push 1)")
+		}
+		for _, t := range fr {
+			s.define(t)
+			s.send("(assert " + t.ref() + ")")
+		}
+	}
+	s.lastHard = false
+	return nil
 }
 
 func (s *Solver) Close() {
@@ -367,8 +412,24 @@ func (s *Solver) checkFast() Result {
 	s.send("(check-sat)")
 	s.Queries++
 	var r Result = Unknown
+	// z3 4.8.12 sometimes ignores :timeout (it is not polled during preprocessing): a
+	// watchdog kills the process well after the budget; the answer is then "unknown" and
+	// the process is replaced
+	var wedged atomic.Bool
+	proc := s.cmd.Process
+	var wd *time.Timer
+	if s.Kind != "cvc5" {
+		wd = time.AfterFunc(time.Duration(s.FastMs)*time.Millisecond*4+180*time.Second, func() { wedged.Store(true); err := proc.Kill(); if os.Getenv("SYMGO_SLOW") != "" { fmt.Fprintln(os.Stderr, "    watchdog: killed wedged solver", proc.Pid, err) } })
+	}
 	for {
 		line := s.readLine()
+		if wedged.Load() {
+			s.Time += time.Since(start)
+			if err := s.restart(); err != nil {
+				s.Errors = append(s.Errors, "(error \"solver restart failed: "+err.Error()+"\")")
+			}
+			return Unknown
+		}
 		if line == "" {
 			continue
 		}
@@ -392,6 +453,10 @@ func (s *Solver) checkFast() Result {
 			continue
 		}
 		break
+	}
+	if wd != nil && !wd.Stop() {
+		// the watchdog fired just as the answer arrived: the process is gone
+		s.restart()
 	}
 	s.Time += time.Since(start)
 	if d := time.Since(start); d > 5*time.Second && os.Getenv("SYMGO_SLOW") != "" {
